@@ -626,6 +626,15 @@ func (self *Analyzer) importItem(node pAst.ImportStatement) ast.AnalyzedImport {
 
 				continue
 			case pAst.IMPORT_KIND_TRIGGER:
+				if imported.Trigger == nil {
+					// the host knows the name, but not as a trigger
+					self.error(
+						fmt.Sprintf("No %s named '%s' found in module '%s'", entityErrNameFromImportKind(item.Kind), item.Ident, node.FromModule),
+						nil,
+						item.Span,
+					)
+					continue
+				}
 				prev, prevFound := self.currentModule.addTrigger(item.Ident, *imported.Trigger)
 				if prevFound {
 					self.error(fmt.Sprintf("Trigger function '%s' already exists in current module", item.Ident), nil, item.Span)
